@@ -520,3 +520,5 @@ func isTok(op token.Token, set ...token.Token) bool {
 	}
 	return false
 }
+
+func sortStrings(s []string) { sort.Strings(s) }
